@@ -50,7 +50,7 @@ def check(res, tier, seed):
                 res.violation("remote-e2e:" + p_, "remote definition %s: invoking the function field at path %r ran %s on the peer, expected exactly the peer's method at path %r" % (
                     r["def"], p_, ("nothing (the call failed:%s)" % ran.split("error:", 1)[1]) if ran.startswith(" error:") else ("the method(s) at %r" % ran) if ran else "nothing", p_), dict(kind="remote", case=r))
     expected = {"valid1": "", "valid2": "", "empty": "", "nofuncs": "", "chan-map-ptr": "", "sysremote": "", "epremote": "",
-                "embedded": "", "widerctx": "", "names": "", "unexp-ret": "invalid return", "unexp-args": "invalid arguments", "anyfirst": "invalid arguments",
+                "embedded": "", "widerctx": "", "names": "", "promoted": "", "unexp-ret": "invalid return", "unexp-args": "invalid arguments", "anyfirst": "invalid arguments",
                 "badret0": "invalid return", "badret3": "invalid return", "badret-noerr": "invalid return", "badret-noerr1": "invalid return",
                 "badargs0": "invalid arguments", "badargs-noctx": "invalid arguments", "twobad": "invalid arguments",
                 "twobad2": "invalid return", "bothbad": "invalid return"}
@@ -62,6 +62,11 @@ def check(res, tier, seed):
             res.violation("remote-validity:" + r["def"], "remote definition %s: Link %s, but by the signature rules it must %s" % (
                 r["def"], "stays healthy" if le == "" else "fails with %r" % le, "link successfully" if exp == "" else "fail with the '%s' signature error" % exp),
                 dict(kind="remote", case=r))
+        le2 = r.get("linkerr2")
+        if exp and le.startswith(exp) and le2 is not None and not le2.startswith(exp):
+            hits += 1
+            res.violation("remote-validity-relink:" + r["def"], "remote definition %s: the first link of the registry fails with %r as it must, but a second link of the same registry ends as %r: the definition must be rejected with the '%s' signature error on every link" % (
+                r["def"], le, le2, exp), dict(kind="remote", case=r))
         if le == "":
             obs = "OOk %s" % lst("(%s, %s)" % (lst(cstr(x) for x in p.split(".")), cstr(n)) for p, n in sorted((r.get("names") or {}).items()))
             dist["ok"] += 1
